@@ -25,6 +25,12 @@ type snapSpec struct {
 	Result string `json:"result"`
 }
 
+var modeText = map[string]string{
+	"plain":  "database created with default options",
+	"option": "database created by NewUnspentDb with NewUnspentOpts.CompressRecords=true on a directory without UTXO.db, filled through CommitBlockTxs, saved by Close",
+	"tool":   "plain database whose records were re-serialised with SerializeC and ComprssedUTXO set, as tools/utxo does, saved by Close",
+}
+
 type snapResult struct {
 	Viol    []violation `json:"viol"`
 	Records int         `json:"records"`
@@ -87,8 +93,11 @@ func snapBlock(h, n int, model map[[32]byte]*mRec, scripts map[string][]byte) bl
 			ops.spend[id] = m
 		}
 		extra := 1
-		if h == 2 && n > 0 {
+		if h == 2 {
 			extra = n/2 + 1
+		}
+		if n == 0 {
+			extra = 0 // the empty database stays empty: header-only snapshot
 		}
 		for k := 0; k < extra; k++ {
 			ops.add = append(ops.add, snapRecord(1000*h+k, uint32(h), scripts))
@@ -265,7 +274,8 @@ func snapChild(specFile string) {
 				bad = "decoding panics: " + p
 			}
 			if bad != "" {
-				add(pfx+"record-mismatch-after-reload", fmt.Sprintf("record %s read back through utxo.NewUtxoRec differs: %s", r.Name, bad))
+				add(pfx+"record-mismatch-after-reload", fmt.Sprintf("record %s read back through utxo.NewUtxoRec differs: %s (%s; reloaded header says compressed=%v)", r.Name, bad, modeText[sp.Mode], db.ComprssedUTXO))
+				continue // lookups are judged only on records whose full decode is right
 			}
 			for vout := 0; vout <= len(r.Outs)+1; vout++ {
 				res.Lookups++
@@ -288,7 +298,7 @@ func snapChild(specFile string) {
 				}
 			}
 		}
-		if sp.Op == "reopen" {
+		if sp.Op == "reopen" && len(res.Viol) == 0 {
 			ops := snapBlock(sp.Gen+1, sp.N, model, scripts)
 			commitBlock(db, sp.Gen+1, ops)
 		}
